@@ -465,6 +465,8 @@ def run():
             try:
                 mc["ok"] = vf.tlc(SPEC, "ChildService", "ChildService_MC.cfg", sd, workers=2, timeout=1500)
                 mc["asis"] = vf.tlc(SPEC, "ChildService", "ChildService_MC_asis.cfg", sd, workers=2, timeout=1500)
+                if thorough and not only:
+                    mc["full"] = vf.tlc(SPEC, "ChildService", "ChildService_MC_full.cfg", sd, workers=4, timeout=3000)
             except Exception as ex:
                 mc["err"] = ex
         tm = threading.Thread(target=model)
@@ -491,6 +493,9 @@ def run():
             raise vf.NoVerdict("negative control: the model of child.go as read did not violate Agreement (%s %s)"
                                % (mc["asis"].violated, (mc["asis"].error or "")[:300]))
         chk.add_tlc(mc["asis"], "negative control: child.go as read violates Agreement", count_states=False)
+        if "full" in mc:
+            vf.tlc_ok(mc["full"], "ChildService MC (Lossy = {}, whole product)")
+            chk.add_tlc(mc["full"], "MC: identity wire satisfies Agreement on the whole product of both families")
 
         # vacuity guards on the fixture: requests really ran in spawned children, over the intended transport
         n = len(cases)
